@@ -547,6 +547,11 @@ func (x *MessageSubsidy) Check() lib.ErrorI {
 	if err := checkAddress(x.Address); err != nil {
 		return err
 	}
+	// a subsidy funds the reward pool of a committee: the pool id is the chain id itself, while the escrow, holding and
+	// liquidity pools live at chain id + addend - an unchecked id would credit one of those (or the DAO pool) instead
+	if err := checkChainId(x.ChainId); err != nil {
+		return err
+	}
 	if len(x.Opcode) > 100 {
 		return ErrInvalidOpcode()
 	}
